@@ -311,4 +311,28 @@ theorem scan_end (it : Iter) (dests : List Bool) (hf : it.failed = false) (hp : 
   unfold scan
   simp [hf, hp]
 
+/-! ## from a logical RESULT/Rows response to the iterator -/
+
+theorem colsMatch_view (c : Cols) : colsMatch (viewCols c) (colTypes c) := by
+  cases c <;> simp [colsMatch, viewCols, colTypes, List.map_map, Function.comp_def]
+
+theorem sum_width (ts : List TypeDesc) :
+    ((ts.length : Int) + (ts.map (fun t => (destWidth t : Int) - 1)).sum) = (totalWidth ts : Int) := by
+  induction ts with
+  | nil => simp [totalWidth]
+  | cons t ts ih =>
+    simp only [totalWidth, List.map_cons, List.sum_cons, List.length_cons] at ih ⊢
+    push_cast
+    omega
+
+theorem actualCount_eq (c : Cols) (h : ∀ n g, c ≠ .omitted n g) : actualCount c = (totalWidth (colTypes c) : Int) := by
+  cases c with
+  | omitted n g => exact absurd rfl (h n g)
+  | global ks tb cs =>
+    have := sum_width (colTypes (.global ks tb cs))
+    simpa [actualCount, Cols.count, colTypes] using this
+  | perCol cs =>
+    have := sum_width (colTypes (.perCol cs))
+    simpa [actualCount, Cols.count, colTypes] using this
+
 end C04
